@@ -9,9 +9,13 @@ NOTE_TIE_ABC = ("Trusted base: Coq 8.16.1 kernel (vm_compute for finite sweeps; 
                 "prints 'Closed under the global context'); the RFC transcription in Spec/; tools/py2coq + Prelude/Py.v "
                 "(Python-subset semantics), validated by running the regenerated translation, the frozen model and the "
                 "extracted Spec against the real implementation on every run; extraction via ExtrOcamlBasic + driver glue. ")
-NOTE_TIE_D = ("Encoder/Decoder METHODS are modelled by hand (Model/Encoder.v, Model/Decoder.v) and tied to the source by "
-              "the correspondence harness only (the leaf codecs, table methods and all data tables are regenerated from "
-              "the source by the translator and bridged by kernel-checked lemmas). ")
+NOTE_TIE_D = ("Encoder/Decoder methods, Encoder.encode's argument handling and the constructors are modelled by hand "
+              "(Model/Encoder.v, Model/Decoder.v, Model/Api.v); since the tier-D translation they too are regenerated from the "
+              "source on every run and proved equal to the hand model by bridge lemmas (Bridge/B_dec_*, B_enc_*, B_init_*, B_api_*; "
+              "Encoder.encode under a documented typed view of its dynamically typed arguments: bytes or str names/values, "
+              "two-/three-tuples, the two header-tuple classes, list / iterator / dict -- other argument types are outside the model). "
+              "A fail-closed layout check (tools/py2coq/layout.py, static + run time) refuses anything that could make the running code "
+              "differ from the translated text (extra files or module-level code, decorators, hooks, rebinding, monkeypatching). ")
 
 CLAIMS = {
     "C01": ("round-trip theorem over every encoder/decoder history (C01_round_trip), composed from the encoder-meaning and decoder-refinement theorems",
@@ -48,7 +52,7 @@ CLAIMS = {
             "cost-model linear bound + integer-length bounds (Coq), run-time measurements as the tie", NOTE_TIE_ABC + NOTE_TIE_D + "The unit costs of Model/Cost.v (one step per octet consumed / entry evicted) are a MODEL of the Python code's cost. ", "7 C16"),
     "C17": ("PARTIAL. Proved on a provenance-annotated copy of the decoder model (erasure theorem: it IS the decoder model): after every history every retained table entry and every returned field is an owned object, tags stay parallel to the table, retained octets <= maxsize - 32*entries; the pre-repair code is refuted (D5). Not provable in Coq: that CPython objects tagged Owned do not alias the buffer and that nothing else keeps it alive; checked on the real code (types of retained/returned objects, reference count of the buffer before/after decode incl. after raise, resizability of bytearray input, later blocks after overwriting the buffer)",
             "provenance abstraction with invariant over histories (Coq), run-time aliasing checks as the tie", NOTE_TIE_ABC + NOTE_TIE_D + "Python's aliasing rules for memoryview/bytes/slices are trusted (Model/Prov.v header). ", "7 C17"),
-    "C18": ("argument handling of Encoder.encode (forms, text/bytes, list/iterator/dict with a stable sort on the colon key) = the canonical sequence; decoder raw/text modes: identical state, same fields, text fails only on non-UTF-8",
+    "C18": ("argument handling of Encoder.encode (forms, text/bytes, list/iterator/dict with a stable sort on the colon key) = the canonical sequence (a normal-form theorem between the hand model of the argument handling, to which the regenerated translation of Encoder.encode/_to_bytes/_dict_to_iterable is proved equal, and the property's reading `canon`; domain: names/values that are bytes or str -- other types are stringified by the library and are outside the model); decoder raw/text modes: identical state, same fields, text fails only on non-UTF-8",
             "normal-form theorem over API forms (Coq)", NOTE_TIE_ABC + NOTE_TIE_D + "Trusted: stability of sorted(), dict insertion order, str.encode('utf-8') (text is represented by its UTF-8 bytes). ", "7 C18"),
     "C20": ("PARTIAL. Proved: frame theorem for a world of instances (any interleaving: outputs and final state of instance i = its own sub-history run alone; others untouched); in the model shared data are immutable constants and outputs are functions of configuration and history. The tie to the code: a fail-closed source purity check (no function writes to module/class-level objects or their aliases, instance state created in __init__, no hash/id/time/logging-level dependence) and real runs isolated vs interleaved vs DEBUG logging vs other PYTHONHASHSEED vs fresh process, with a digest of all shared objects before/after. Not provable: interpreter-level sharing outside hpack",
             "non-interference (frame) theorem (Coq) + source purity check + differential runs", NOTE_TIE_ABC + NOTE_TIE_D, "7 C20"),
